@@ -168,3 +168,73 @@ Theorem C09_removeoverlaps_no_overlap mklt xB yB solve rs fixed third r :
   removeoverlaps mklt solve xB yB rs fixed third = Some r -> no_overlap xB yB (ro_rects r).
 Proof. exact (fun S T X Y => pipeline_no_overlap mklt S T xB yB X Y solve rs fixed third r). Qed.
 Print Assumptions C09_removeoverlaps_no_overlap.
+
+(* ================= static solver round (Vpsc/StaticModel.v, Vpsc/StaticFrame.v, Rect/PipelineStatic.v):
+   the premise `solver_contract` is replaced by the model of the solver removeoverlaps really calls (vpsc::Solver,
+   extracted and compared with the compiled code on every run of checks/c01.py / c02.py) and the solver's 1e-10
+   tolerance is carried through the chain lemma *)
+From Adapt Require Import Rect.PipelineStatic.
+From Adapt Require Vpsc.VpscSpec Vpsc.VpscModel Vpsc.StaticModel Vpsc.StaticFrame.
+
+(* the chain lemma with tolerance: positions that satisfy every generated constraint up to eps leave no overlap w.r.t.
+   the caller's borders as long as eps * n <= 2 * EXTRA_GAP (pass 2; pass 3 symmetric) *)
+Theorem C09_pipeline_y_chain_tolerance mklt xB yB eps rs1 cs2 y2 :
+  (forall pos, strict (mklt pos)) -> (forall pos, total_on (mklt pos) (length pos)) ->
+  (forall pos a b, mklt pos a b = true -> (a < length pos)%nat /\ (b < length pos)%nat) ->
+  0 <= xB -> 0 <= yB -> 0 <= eps ->
+  good_rects rs1 ->
+  generateYConstraints mklt xB (yB + EXTRA_GAP) rs1 = Some cs2 ->
+  length y2 = length rs1 ->
+  sat_eps eps (fun i => nth i y2 0) cs2 ->
+  eps * inject_Z (Z.of_nat (length rs1)) <= 2 * EXTRA_GAP ->
+  no_overlap xB yB (move_all (moveCentreY (yB + EXTRA_GAP)) rs1 y2).
+Proof. exact (fun S T R X Y E => pipeline_y_chain_eps mklt S T R xB yB X Y eps E rs1 cs2 y2). Qed.
+Print Assumptions C09_pipeline_y_chain_tolerance.
+
+Theorem C09_pipeline_x_chain_tolerance mklt xB yB eps rs3 cs3 x3 :
+  (forall pos, strict (mklt pos)) -> (forall pos, total_on (mklt pos) (length pos)) ->
+  (forall pos a b, mklt pos a b = true -> (a < length pos)%nat /\ (b < length pos)%nat) ->
+  0 <= xB -> 0 <= yB -> 0 <= eps ->
+  good_rects rs3 ->
+  generateXConstraints mklt (xB + EXTRA_GAP) yB rs3 false = Some cs3 ->
+  length x3 = length rs3 ->
+  sat_eps eps (fun i => nth i x3 0) cs3 ->
+  eps * inject_Z (Z.of_nat (length rs3)) <= 2 * EXTRA_GAP ->
+  no_overlap xB yB (move_all (moveCentreX (xB + EXTRA_GAP)) rs3 x3).
+Proof. exact (fun S T R X Y E => pipeline_x_chain_eps mklt S T R xB yB X Y eps E rs3 cs3 x3). Qed.
+Print Assumptions C09_pipeline_x_chain_tolerance.
+
+(* a normal return of the static solver model: one position per variable and every constraint of the input holds up to
+   1e-10 (what Solver::refine's closing scan checks) *)
+Theorem C09_static_solve_contract d w cs :
+  length w = length d ->
+  Forall (fun c => (cl c < length d)%nat /\ (cr c < length d)%nat) cs ->
+  returns d w cs ->
+  length (static_solve_fn d w cs) = length d /\
+  sat_eps SOLVER_EPS (fun i => nth i (static_solve_fn d w cs) 0) cs.
+Proof. exact (static_solve_fn_sat_eps d w cs). Qed.
+Print Assumptions C09_static_solve_contract.
+
+(* removeoverlaps with the static solver model in every pass leaves no positive-area overlap (caller's borders) for up
+   to 10^7 rectangles.  NO solver contract is assumed.  The one remaining premise: the static solver model RETURNS on
+   the last pass's (acyclic) constraint set - i.e. vpsc::Solver::solve() does not throw UnsatisfiedConstraint there and
+   the model's fuel suffices (`static_no_throw_on_dag`, not proved: see Properties/C01.v; observed on every DAG of every
+   run of checks/c01.py, and checks/c09.py checks the conclusion on the real removeoverlaps).  If the real solver does
+   throw, the exception leaves vpsc::removeoverlaps (catch(char*) does not catch it): nothing is returned. *)
+Theorem C09_removeoverlaps_no_overlap_static mklt xB yB rs fixed third r :
+  (forall pos, strict (mklt pos)) -> (forall pos, total_on (mklt pos) (length pos)) ->
+  (forall pos a b, mklt pos a b = true -> (a < length pos)%nat /\ (b < length pos)%nat) ->
+  0 <= xB -> 0 <= yB ->
+  good_rects rs -> (Z.of_nat (length rs) <= 10000000)%Z ->
+  removeoverlaps mklt static_solve_fn xB yB rs fixed third = Some r ->
+  (forall rsl csl d, last_pass mklt xB yB third rsl csl d -> acyclic csl -> returns d (weights (length rs) fixed) csl) ->
+  no_overlap xB yB (ro_rects r).
+Proof. exact (fun S T R X Y => pipeline_no_overlap_static mklt S T R xB yB X Y rs fixed third r). Qed.
+Print Assumptions C09_removeoverlaps_no_overlap_static.
+
+(* both comparator variants satisfy the range hypothesis *)
+Theorem C09_cmp_range addr ids pos a b :
+  (cmp_node_pos_addr addr pos a b = true -> (a < length pos)%nat /\ (b < length pos)%nat) /\
+  (cmp_node_pos_id ids addr pos a b = true -> (a < length pos)%nat /\ (b < length pos)%nat).
+Proof. exact (conj (cmp_node_pos_addr_range addr pos a b) (cmp_node_pos_id_range ids addr pos a b)). Qed.
+Print Assumptions C09_cmp_range.
